@@ -143,6 +143,14 @@ def finish(ctx: Ctx, explanation: str, rule_text: str, digests: Dict[str, str]) 
         print(f"KNOWN-FINDING: property={ctx.prop} {k.get('id', '')} {o.rule} {o.key} :: {o.detail}"
               + (f" :: witness: {o.witness}" if o.witness else ""))
 
+    if unlisted and _annotation_assumptions():
+        # a helper was replaced by its return annotation: passing rules stay sound under that recorded assumption,
+        # but a failed rule may be an artefact of the lost precision, so it is no verdict rather than an alarm
+        o = unlisted[0]
+        raise AnalysisError(
+            f"{len(unlisted)} rule(s) failed (first: {o.rule} {o.key}: {o.detail[:200]}) but " + _annotation_assumptions()[0]
+            + "; the failure cannot be told from lost precision", o.where)
+
     viol_dir = os.path.join(EVIDENCE_DIR, "violations")
     replay_paths = []
     if unlisted:
